@@ -39,8 +39,58 @@ macro_rules! timing_guard {
 #[macro_export]
 macro_rules! timing_phase {
     ($($args:tt)*) => {
+        $crate::verif_phase!($($args)*);
         let _guard = $crate::timing_guard!($($args)*);
     };
+}
+
+/// Verification hook: reports a phase boundary. Expands to nothing unless built with
+/// `--cfg wild_verif`.
+#[cfg(wild_verif)]
+#[macro_export]
+macro_rules! verif_phase {
+    ($name:literal $($rest:tt)*) => {
+        $crate::verif::phase($name);
+    };
+}
+
+#[cfg(not(wild_verif))]
+#[macro_export]
+macro_rules! verif_phase {
+    ($($args:tt)*) => {};
+}
+
+/// Verification hook: schedule perturbation point. Expands to nothing unless built with
+/// `--cfg wild_verif`.
+#[cfg(wild_verif)]
+#[macro_export]
+macro_rules! verif_perturb {
+    ($name:literal $($rest:tt)*) => {
+        $crate::verif::perturb($name);
+    };
+}
+
+#[cfg(not(wild_verif))]
+#[macro_export]
+macro_rules! verif_perturb {
+    ($($args:tt)*) => {};
+}
+
+/// Verification hook: protocol event. Expands to nothing unless built with `--cfg wild_verif`.
+#[cfg(wild_verif)]
+#[macro_export]
+macro_rules! verif_ev {
+    ($kind:literal, $a:expr, $b:expr, $c:expr) => {
+        if $crate::verif::ev_enabled() {
+            $crate::verif::ev($kind, ($a) as u64, ($b) as u64, ($c) as u64);
+        }
+    };
+}
+
+#[cfg(not(wild_verif))]
+#[macro_export]
+macro_rules! verif_ev {
+    ($($args:tt)*) => {};
 }
 
 /// More verbose timing instrumentation that by default doesn't show up in the output of --time.
@@ -48,6 +98,7 @@ macro_rules! timing_phase {
 #[macro_export]
 macro_rules! verbose_timing_phase {
     ($($args:tt)*) => {
+        $crate::verif_perturb!($($args)*);
         perfetto_recorder::scope!($($args)*);
     };
 }
